@@ -297,6 +297,9 @@ func (c *Cluster) queryHosts(ctx context.Context, conn *ClientConn, version prim
 		return nil, ClusterInfo{}, errors.New("empty result set returned for system.local")
 	}
 	hosts = c.addHosts(hosts, rs)
+	if len(hosts) == 0 {
+		return nil, ClusterInfo{}, errors.New("no valid host in result set returned for system.local")
+	}
 	row := rs.Row(0)
 	localDC := hosts[0].DC
 
